@@ -71,7 +71,7 @@ def _version_of(vc, name):
     return vc.opt(name, vc.str)
 
 
-@harness('Q1', targets='kopf._core.reactor.queueing.worker', props=['C01', 'C07'],
+@harness('Q1', targets='kopf._core.reactor.queueing.worker', props=['C01', 'C07', 'C03'],
          clauses=['idle_exit_leaves_no_event', 'got_item_processed_next', 'order_invariant', 'frame_streams',
                   'consistency_bookkeeping', 'no_retire_before_consistency_deadline', 'processor_gets_current_expectation',
                   'pressure_tells_pending_events'],
@@ -323,7 +323,7 @@ def Q1(vc):
 
 # ================================================================================================ watcher
 @harness('Q5', targets=['kopf._core.reactor.queueing.watcher', 'kopf._core.reactor.queueing.get_uid'],
-         props=['C01', 'C20'],
+         props=['C01', 'C20', 'C03'],
          clauses=['one_put_per_event', 'no_put_for_bookmarks', 'put_into_live_stream', 'create_path_insert_put_spawn',
                   'spawn_only_when_absent', 'keyed_by_uid', 'worker_failure_escalates', 'drains_and_closes_on_exit',
                   'pressure_follows_put'],
@@ -423,6 +423,11 @@ def Q5(vc):
             # Q8: the first failure of a worker cancels the watcher at once (that is the only way to wake it up)
             vc.ensure('worker_failure_escalates', state.task.cancelled_count >= 1)
             return asyncio.CancelledError() if state.task.cancelled_count else None
+        # while draining / closing on the way out the watcher may be cancelled AGAIN (a second stop signal, another
+        # worker failing meanwhile): "ensure the depletion is done even if the watcher is double-cancelled"
+        if site in ('shield', 'await task') and state.recancelled < 2 and vc.nondet(2, 'the watcher is cancelled again while draining?') == 1:
+            state.recancelled += 1
+            return asyncio.CancelledError()
         return None
 
     class Scheduler:
@@ -442,6 +447,12 @@ def Q5(vc):
         def empty(self):
             return True
 
+    def finish(task):
+        vc.emit('awaited', task.coro)
+        if getattr(task.coro, 'kind', '') == 'close':
+            state.closed = True
+        task._done = True
+
     class Task:
         def __init__(self, coro=None):
             self.coro, self.cancelled_count, self._done = coro, 0, False
@@ -451,7 +462,18 @@ def Q5(vc):
 
         def done(self):
             return self._done
+
+        def __await__(self):
+            # awaited directly, not through asyncio.shield: a cancellation of the awaiting task is passed on to this task
+            try:
+                yield from suspend('await task').__await__()
+            except asyncio.CancelledError:
+                self.cancelled_count += 1
+                self._done = True               # it ends -- cancelled, not completed
+                raise
+            finish(self)
     state.task = Task()
+    state.recancelled = 0
     created = []
 
     def create_task(coro, name=None):
@@ -460,11 +482,8 @@ def Q5(vc):
         return t
 
     async def shield(task):
-        await suspend('shield')
-        vc.emit('awaited', task.coro)
-        if getattr(task.coro, 'kind', '') == 'close':
-            state.closed = True
-        task._done = True
+        await suspend('shield')         # a cancellation delivered here ends the WAITING only: the shielded task goes on
+        finish(task)
 
     async def asleep(delay=0):
         await suspend('asyncio.sleep')
@@ -563,6 +582,8 @@ def Q5(vc):
     # ---- on every exit: drained, then closed (C01 shutdown / C20)
     awaited = [e[1] for e in vc.trace if e[0] == 'awaited']
     vc.ensure('drains_and_closes_on_exit', len(created) == 2 and all(t._done for t in created))
+    # ... and neither the draining nor the closing is cut short by a repeated cancellation of the watcher itself
+    vc.ensure('drains_and_closes_on_exit', all(t.cancelled_count == 0 for t in created))
     vc.ensure('drains_and_closes_on_exit', len(awaited) >= 2 and getattr(awaited[0], 'kind', '') == 'depletion'
               and state.closed)
     # ---- Q8
